@@ -215,7 +215,22 @@ def check_property(pid, tier, seed=0, replay_only=None):
             problems.append((3, 'unit %s crashed: %s' % (r['unit'], r['error'].strip().split('\n')[-1])))
             continue
         if r.get('out_of_subset'):
-            problems.append((2, 'unit %s out of subset: %s' % (r['unit'], r['out_of_subset'])))
+            # The function left the verifier's subset (on the unchanged tree this is a checker gap: exit 2).  As a bounded stand-in
+            # the contract's seed inputs are run on the real code: a seed that breaks a clause is a real violation of the contract.
+            K0 = u.make()
+            found = False
+            if hasattr(K0, 'seeds'):
+                seeds = K0.seeds()
+                items = [(u, v, K0.replay_env(v) if hasattr(K0, 'replay_env') else None) for v in seeds]
+                for v, rp in zip(seeds, real_replay_batch(items)):
+                    if rp.get('failed'):
+                        oid = '%s/%s%s/%s' % (pid, getattr(K0, 'label', None) or verify.short(K0.target), (u.name[len(u.kcls.__name__):] if u.params else ''), rp['failed'][0])
+                        violations.append((u, r, {'oid': oid, 'status': 'sat', 'backend': 'bounded-seed-search', 's': 0.0, 'kind': 'bounded', 'values': v,
+                                                  'meta': {'note': 'function is outside the verifier subset (%s); failing input found by the bounded seed search (%d seeds)' % (r['out_of_subset'], len(seeds))}}))
+                        found = True
+                        break
+            if not found:
+                problems.append((2, 'unit %s out of subset: %s' % (r['unit'], r['out_of_subset'])))
             continue
         if r.get('incomplete'):
             problems.append((2, 'unit %s incomplete: %s' % (r['unit'], r['incomplete'])))
